@@ -124,7 +124,13 @@ func main() {
 	repo := flag.String("repo", "/repo", "go-stackage source directory")
 	out := flag.String("out", "", "output directory for Gen/*.lean (required)")
 	factsJSON := flag.String("facts", "", "optional path for facts.json")
+	dump := flag.Bool("dumpvars", false, "print the declared variables of the guard-site functions (to refresh canon.go)")
 	flag.Parse()
+	if *dump {
+		load(*repo)
+		dumpVars()
+		return
+	}
 	if *out == "" {
 		die("-out required")
 	}
